@@ -59,6 +59,12 @@ impl<const NT: usize, const NH: usize> LState<NT, NH> {
             children: &self.children[..frames.div_ceil(TREE_FRAMES)],
         }
     }
+    /// Same, for a frame count that needs exactly `nbf` bitfields and NT tables: concrete slice
+    /// lengths (loops over the slices then unwind exactly instead of to the global bound).
+    pub fn lower_exact(&self, frames: usize, nbf: usize) -> Lower<'_> {
+        kani::assume(frames.div_ceil(Bitfield::LEN) == nbf && frames.div_ceil(TREE_FRAMES) == NT);
+        Lower { len: frames, bitfields: &self.bitfields[..nbf], children: &self.children }
+    }
 }
 
 /// A frame count that needs exactly NT trees (the last one possibly partial).
@@ -759,9 +765,225 @@ fn li_put_body(k: usize, shape: u8, freeze: bool) {
     }
 }
 
+// =============================================================================================
+// Initialisation (C06), recovery (C05a) and crash points inside a call (C05b)
+// =============================================================================================
+
+/// `check_inv`: the asserted mirror image of `assume_inv`, with the exact popcount relation
+/// (used where the popcount is affordable: initial states are all-zero / all-one rows).
+fn check_exact_inv<const NH: usize>(m: &LModel<NH>, frames: usize) -> bool {
+    let nbf = frames.div_ceil(HUGE_FRAMES);
+    let mut ok = true;
+    for h in 0..NH {
+        let e = m.entries[h];
+        if h >= nbf {
+            if e != 0 {
+                ok = false;
+            }
+            continue;
+        }
+        let inr = in_range(frames, h);
+        if e == HUGE {
+            if inr != HUGE_FRAMES {
+                ok = false;
+            }
+            for r in 0..NROWS {
+                if m.rows[h][r] != 0 {
+                    ok = false;
+                }
+            }
+        } else {
+            if e as usize != crate::bitfield::verif_bitfield::zeros(&m.rows[h]) {
+                ok = false;
+            }
+            for r in 0..NROWS {
+                if m.rows[h][r] & out_of_range_mask(inr, r) != out_of_range_mask(inr, r) {
+                    ok = false;
+                }
+            }
+        }
+    }
+    ok
+}
+
+/// Free-all / allocate-all initialisation from arbitrary garbage, for every frame count
+/// from 0 to NT trees.
+fn l_init_body<const NT: usize, const NH: usize>(alloc_all: bool, nbf_c: usize) {
+    let st = LState::<NT, NH>::any();
+    let frames: usize = kani::any();
+    kani::assume(frames <= NT * TREE_FRAMES);
+    let lower = if nbf_c == 0 {
+        kani::assume(frames == 0);
+        Lower { len: 0, bitfields: &[], children: &[] }
+    } else {
+        st.lower_exact(frames, nbf_c)
+    };
+    // (initialisation runs before the allocator is shared: no observers needed)
+    if alloc_all { lower.reserve_all() } else { lower.free_all() }
+    let m = st.snapshot();
+    let nbf = frames.div_ceil(HUGE_FRAMES);
+    let ntab = frames.div_ceil(TREE_FRAMES);
+    vcover!("C06", nbf_c == 0 || frames % HUGE_FRAMES != 0, "partial last huge frame");
+    // witness frame and witness huge frame
+    let w: usize = kani::any();
+    kani::assume(w < nbf * HUGE_FRAMES);
+    let bit = m.rows[w / HUGE_FRAMES][w % HUGE_FRAMES / 64] >> (w % 64) & 1 == 1;
+    let h: usize = kani::any();
+    kani::assume(h < ntab * TREE_HUGE);
+    let inr = in_range(frames, h);
+    if !alloc_all {
+        vassert!("C06", bit == (w >= frames), "free-all: a frame is marked allocated exactly when it lies at or beyond the managed count");
+        vassert!("C06", m.entries[h] as usize == inr, "free-all: every huge frame's counter is the number of its frames inside the managed range");
+    } else {
+        let whole = inr == HUGE_FRAMES;
+        vassert!("C06", m.entries[h] == if whole { HUGE } else { 0 }, "allocate-all: whole huge frames carry the huge marker, every other counter is zero");
+        vassert!("C06", bit == !(w / HUGE_FRAMES < frames / HUGE_FRAMES), "allocate-all: frames of whole huge frames are clear under their marker, every other frame is marked allocated");
+    }
+    vassert!("C06", check_exact_inv(&m, frames), "the initial state satisfies the representation invariant (counters equal clear bits, nothing beyond the range is free)");
+}
+
+/// `recover()` on any state a crash can leave behind: arbitrary counters/markers, arbitrary
+/// rows except that bits beyond the range are set (no operation ever clears them: C08).
+fn l_recover_body<const NT: usize, const NH: usize>(nbf_c: usize) {
+    let st = LState::<NT, NH>::any();
+    let frames: usize = kani::any();
+    kani::assume(frames >= 1 && frames <= NT * TREE_FRAMES);
+    let pre = st.snapshot();
+    let nbf = frames.div_ceil(HUGE_FRAMES);
+    for h in 0..NH {
+        if h < nbf {
+            let inr = in_range(frames, h);
+            // a huge marker is only ever written over huge frames entirely inside the range
+            kani::assume(pre.entries[h] != HUGE || inr == HUGE_FRAMES);
+            for r in 0..NROWS {
+                kani::assume(pre.rows[h][r] & out_of_range_mask(inr, r) == out_of_range_mask(inr, r));
+            }
+        } else {
+            // entries of the last table without a bitfield are never written after initialisation
+            kani::assume(pre.entries[h] == 0);
+        }
+    }
+    let lower = st.lower_exact(frames, nbf_c);
+    lower.recover();
+    let post = st.snapshot();
+    vcover!("C05", pre.entries[0] == HUGE && pre.rows[0][0] != 0, "marker over a partly filled bitfield (crash inside a split)");
+    vcover!("C05", pre.entries[0] != HUGE && pre.entries[0] as usize != crate::bitfield::verif_bitfield::zeros(&pre.rows[0]), "counter out of sync with the bitfield");
+    for h in 0..NH {
+        if h >= nbf {
+            vassert!("C05", post.entries[h] == 0, "recovery leaves entries beyond the managed range alone");
+            continue;
+        }
+        if pre.entries[h] == HUGE {
+            vassert!("C05", post.entries[h] == HUGE, "recovery keeps a whole-allocated huge frame allocated");
+            for r in 0..NROWS {
+                vassert!("C05", post.rows[h][r] == 0, "recovery clears the bitfield under a huge marker");
+            }
+        } else {
+            for r in 0..NROWS {
+                vassert!("C05", post.rows[h][r] == pre.rows[h][r], "recovery never changes the allocation bit of a frame outside whole-allocated huge frames");
+            }
+            vassert!("C05", post.entries[h] as usize == crate::bitfield::verif_bitfield::zeros(&pre.rows[h]), "recovery sets every counter to the number of free frames of its bitfield");
+        }
+    }
+    vassert!("C05", check_exact_inv(&post, frames), "the recovered state satisfies the representation invariant");
+}
+
+// ---- crash inside one call: snapshot before the K-th write to the persistent metadata --------
+static mut CRASH_AT: usize = usize::MAX;
+static mut CRASH_WRITES: usize = 0;
+static mut CRASH_SNAP: Option<LModel<NH1>> = None;
+static mut CRASH_ST: *const LState<1, NH1> = core::ptr::null();
+fn crash_pre(_addr: *const u8, _size: usize, write: bool) {
+    unsafe {
+        if write {
+            if CRASH_WRITES == CRASH_AT {
+                CRASH_SNAP = Some((*CRASH_ST).snapshot());
+            }
+            CRASH_WRITES += 1;
+        }
+    }
+}
+/// One call (get / targeted get / put of a small order, or a huge-order call) from a J state;
+/// execution stops before an arbitrary write (or after the call); the real `recover()` runs on
+/// the metadata as it is at that instant.
+fn l_crash_body(k: usize, op: u8) {
+    let st = LState::<1, NH1>::any();
+    let frames = any_frames::<1>();
+    let pre = st.snapshot();
+    assume_inv(&pre, frames);
+    let lower = st.lower_exact(frames, TREE_HUGE);
+    let f: usize = kani::any();
+    kani::assume(f < TREE_FRAMES && f % (1 << k) == 0 && f + (1 << k) <= frames);
+    assume_block_instances(&pre, f, k);
+    // an untouched witness block: one base frame anywhere else
+    let w: usize = kani::any();
+    kani::assume(w < frames);
+    unsafe {
+        CRASH_AT = kani::any();
+        CRASH_WRITES = 0;
+        CRASH_SNAP = None;
+        CRASH_ST = &st;
+        ON_PRE = Some(crash_pre);
+    }
+    install(Mode::Seq);
+    let r = match op {
+        0 => lower.get(RowId(0), k, None).map(|_| ()),
+        1 => lower.get(RowId(0), k, Some(FrameId(f))).map(|_| ()),
+        _ => lower.put(FrameId(f), k),
+    };
+    set_mode(Mode::Off);
+    let total = unsafe { CRASH_WRITES };
+    let crashed = unsafe { CRASH_SNAP };
+    vcover!("C05", crashed.is_some() && r.is_ok() && unsafe { CRASH_AT } > 0, "crash between two writes of a successful call");
+    // the state at the crash point (or the final state if the crash comes after the call)
+    let at = match crashed {
+        Some(s) => s,
+        None => st.snapshot(),
+    };
+    kani::assume(crashed.is_some() || unsafe { CRASH_AT } >= total);
+    st.restore(&at);
+    lower.recover();
+    let rec = st.snapshot();
+    // which frames the call may touch: for an untargeted allocation we do not know the block in
+    // advance, so "touched" is any frame whose bit differs between pre-state and final state, or
+    // the whole huge frame for marker operations; the witness must be outside.
+    let fin_rows_changed = |g: usize| {
+        let fin = if crashed.is_some() { None } else { Some(()) };
+        let _ = fin;
+        false || g == usize::MAX
+    };
+    let _ = fin_rows_changed;
+    let wh = w / HUGE_FRAMES;
+    let wbit = |m: &LModel<NH1>| m.rows[wh][w % HUGE_FRAMES / 64] >> (w % 64) & 1 == 1;
+    let touched_huge = if op == 0 { 0 } else { f / HUGE_FRAMES };
+    let in_target = op != 0 && w >= f && w < f + (1 << k);
+    if op != 0 && !in_target && !(k >= HUGE_ORDER && wh == touched_huge) {
+        if pre.huge(wh) {
+            // part of a whole-allocated huge frame: stays allocated (split or not)
+            vassert!("C05", rec.huge(wh) || wbit(&rec), "a frame allocated before the call and not named by it is still allocated after crash and recovery");
+        } else {
+            vassert!("C05", wbit(&rec) == wbit(&pre) && !rec.huge(wh), "crash and recovery leave the status of every frame not named by the call unchanged");
+        }
+    }
+    if op == 0 {
+        // untargeted: a frame allocated before stays allocated; a free frame stays free unless it
+        // belongs to the one block the call was taking
+        if pre.huge(wh) || wbit(&pre) {
+            vassert!("C05", rec.huge(wh) || wbit(&rec), "a frame allocated before the call is still allocated after crash and recovery");
+        }
+    }
+    vassert!("C05", check_exact_inv(&rec, frames), "after a crash at any write, recovery re-establishes the representation invariant");
+    if crashed.is_none() && r.is_ok() && op != 2 && k < HUGE_ORDER && op == 1 {
+        vassert!("C05", rec.small_alloc(f, k), "a completed allocation survives crash and recovery");
+    }
+    if crashed.is_none() && r.is_ok() && op == 2 && k < HUGE_ORDER {
+        vassert!("C05", rec.small_free(f, k), "a completed free survives crash and recovery");
+    }
+}
+
 // ---- generated: one harness per concrete order (symbolic orders make CBMC explore dead match arms) ----
 
-// @h props=C04 tier=quick geom=1 tgeom=2 panics=C09 mem=C18
+// @h props=C04,C09,C18 tier=quick geom=1 tgeom=2 panics=C09 mem=C18
 #[kani::proof]
 #[kani::unwind(18)]
 fn l_queries() {
@@ -773,7 +995,7 @@ fn l_is_free_orders() {
     l_is_free_orders_body::<1, NH1>()
 }
 
-// @h props=C01,C02,C12 tier=quick geom=1 tgeom=2,4 panics=C09 mem=C18
+// @h props=C01,C02,C12,C09,C18 tier=quick geom=1 tgeom=2,4 panics=C09 mem=C18
 #[kani::proof]
 #[kani::unwind(18)]
 fn l_get_o0() {
@@ -890,7 +1112,7 @@ fn l_get_t2_o10() {
     l_get_body::<2, NH2>(10)
 }
 
-// @h props=C01,C02 tier=quick geom=1 tgeom=2,4 panics=C09 mem=C18
+// @h props=C02 tier=quick geom=1 tgeom=2,4 panics=C09 mem=C18
 #[kani::proof]
 #[kani::unwind(18)]
 fn l_get_at_o0() {
@@ -944,7 +1166,7 @@ fn l_get_at_o8() {
     l_get_at_body::<1, NH1>(8)
 }
 
-// @h props=C01,C02 tier=quick geom=1 tgeom= panics=C09 mem=C18
+// @h props=C02 tier=quick geom=1 tgeom= panics=C09 mem=C18
 #[kani::proof]
 #[kani::unwind(18)]
 fn l_get_at_t2_o0() {
@@ -1009,7 +1231,7 @@ fn l_get_at_t2_o10() {
     l_get_at_body::<2, NH2>(10)
 }
 
-// @h props=C02 tier=quick geom=1 tgeom=2,4 panics=C09 mem=C18
+// @h props=C02,C09,C18 tier=quick geom=1 tgeom=2,4 panics=C09 mem=C18
 #[kani::proof]
 #[kani::unwind(18)]
 fn l_put_o0() {
@@ -1464,4 +1686,213 @@ fn lf_put_o3() {
 #[kani::stub(core::hint::spin_loop, crate::verif_support::spin_loop_model)]
 fn lf_put_o6() {
     li_put_body(6, 0, true)
+}
+
+// ---- generated: initialisation / recovery / crash ----
+// one harness per number of bitfields the frame count needs (concrete slice lengths), the
+// frame count itself symbolic inside that interval
+// @h props=C06,C09,C18 tier=quick geom=1 panics=C09 mem=C18
+#[kani::proof]
+#[kani::unwind(9)]
+fn l_init_free_all_0of1() {
+    l_init_body::<1, NH1>(false, 0)
+}
+#[kani::proof]
+#[kani::unwind(9)]
+fn l_init_reserve_all_0of1() {
+    l_init_body::<1, NH1>(true, 0)
+}
+#[kani::proof]
+#[kani::unwind(9)]
+fn l_init_free_all_1of1() {
+    l_init_body::<1, NH1>(false, 1)
+}
+#[kani::proof]
+#[kani::unwind(9)]
+fn l_init_reserve_all_1of1() {
+    l_init_body::<1, NH1>(true, 1)
+}
+#[kani::proof]
+#[kani::unwind(9)]
+fn l_init_free_all_t2() {
+    l_init_body::<2, NH2>(false, 2)
+}
+#[kani::proof]
+#[kani::unwind(9)]
+fn l_init_reserve_all_t2() {
+    l_init_body::<2, NH2>(true, 2)
+}
+// @h props=C06,C09,C18 tier=quick geom=2 panics=C09 mem=C18
+#[kani::proof]
+#[kani::unwind(9)]
+fn l_init_free_all_1of2() {
+    l_init_body::<1, NH1>(false, 1)
+}
+#[kani::proof]
+#[kani::unwind(9)]
+fn l_init_reserve_all_1of2() {
+    l_init_body::<1, NH1>(true, 1)
+}
+#[kani::proof]
+#[kani::unwind(9)]
+fn l_init_free_all_2of2() {
+    l_init_body::<1, NH1>(false, 2)
+}
+#[kani::proof]
+#[kani::unwind(9)]
+fn l_init_reserve_all_2of2() {
+    l_init_body::<1, NH1>(true, 2)
+}
+// @h props=C06 tier=thorough geom=2 panics=C09 mem=C18
+#[kani::proof]
+#[kani::unwind(9)]
+fn l_init_free_all_3of2x2() {
+    l_init_body::<2, NH2>(false, 3)
+}
+#[kani::proof]
+#[kani::unwind(9)]
+fn l_init_reserve_all_3of2x2() {
+    l_init_body::<2, NH2>(true, 3)
+}
+// @h props=C06 tier=thorough geom=4 panics=C09 mem=C18
+#[kani::proof]
+#[kani::unwind(9)]
+fn l_init_free_all_1of4() {
+    l_init_body::<1, NH1>(false, 1)
+}
+#[kani::proof]
+#[kani::unwind(9)]
+fn l_init_reserve_all_1of4() {
+    l_init_body::<1, NH1>(true, 1)
+}
+#[kani::proof]
+#[kani::unwind(9)]
+fn l_init_free_all_3of4() {
+    l_init_body::<1, NH1>(false, 3)
+}
+#[kani::proof]
+#[kani::unwind(9)]
+fn l_init_reserve_all_3of4() {
+    l_init_body::<1, NH1>(true, 3)
+}
+#[kani::proof]
+#[kani::unwind(9)]
+fn l_init_free_all_4of4() {
+    l_init_body::<1, NH1>(false, 4)
+}
+#[kani::proof]
+#[kani::unwind(9)]
+fn l_init_reserve_all_4of4() {
+    l_init_body::<1, NH1>(true, 4)
+}
+// @h props=C05 tier=quick geom=1 panics=C05 mem=C18
+#[kani::proof]
+#[kani::unwind(9)]
+fn l_recover_1of1() {
+    l_recover_body::<1, NH1>(1)
+}
+// (geometry 2: a last tree with one or two of its two huge frames)
+// @h props=C05,C18 tier=quick geom=2 panics=C05 mem=C18
+#[kani::proof]
+#[kani::unwind(9)]
+fn l_recover_1of2() {
+    l_recover_body::<1, NH1>(1)
+}
+#[kani::proof]
+#[kani::unwind(9)]
+fn l_recover_2of2() {
+    l_recover_body::<1, NH1>(2)
+}
+// @h props=C05 tier=thorough geom=4 panics=C05 mem=C18
+#[kani::proof]
+#[kani::unwind(9)]
+fn l_recover_3of4() {
+    l_recover_body::<1, NH1>(3)
+}
+
+// @h props=C05 tier=thorough geom=1 panics=C09 mem=C18
+#[kani::proof]
+#[kani::unwind(9)]
+fn l_crash_get_o0() {
+    l_crash_body(0, 0)
+}
+#[kani::proof]
+#[kani::unwind(9)]
+fn l_crash_get_o9() {
+    l_crash_body(9, 0)
+}
+
+// @h props=C05 tier=thorough geom=1 panics=C09 mem=C18
+#[kani::proof]
+#[kani::unwind(9)]
+fn l_crash_get_at_o3() {
+    l_crash_body(3, 1)
+}
+
+// @h props=C05 tier=thorough geom=1 panics=C09 mem=C18
+#[kani::proof]
+#[kani::unwind(9)]
+fn l_crash_put_o0() {
+    l_crash_body(0, 2)
+}
+#[kani::proof]
+#[kani::unwind(9)]
+fn l_crash_put_o9() {
+    l_crash_body(9, 2)
+}
+
+// @h props=C05 tier=thorough geom=1 panics=C09 mem=C18
+#[kani::proof]
+#[kani::unwind(9)]
+fn l_crash_get_o3() {
+    l_crash_body(3, 0)
+}
+#[kani::proof]
+#[kani::unwind(9)]
+fn l_crash_get_o6() {
+    l_crash_body(6, 0)
+}
+#[kani::proof]
+#[kani::unwind(9)]
+fn l_crash_get_o7() {
+    l_crash_body(7, 0)
+}
+
+// @h props=C05 tier=thorough geom=1 panics=C09 mem=C18
+#[kani::proof]
+#[kani::unwind(9)]
+fn l_crash_get_at_o0() {
+    l_crash_body(0, 1)
+}
+#[kani::proof]
+#[kani::unwind(9)]
+fn l_crash_get_at_o6() {
+    l_crash_body(6, 1)
+}
+#[kani::proof]
+#[kani::unwind(9)]
+fn l_crash_get_at_o7() {
+    l_crash_body(7, 1)
+}
+#[kani::proof]
+#[kani::unwind(9)]
+fn l_crash_get_at_o9() {
+    l_crash_body(9, 1)
+}
+
+// @h props=C05 tier=thorough geom=1 panics=C09 mem=C18
+#[kani::proof]
+#[kani::unwind(9)]
+fn l_crash_put_o3() {
+    l_crash_body(3, 2)
+}
+#[kani::proof]
+#[kani::unwind(9)]
+fn l_crash_put_o6() {
+    l_crash_body(6, 2)
+}
+#[kani::proof]
+#[kani::unwind(9)]
+fn l_crash_put_o7() {
+    l_crash_body(7, 2)
 }
